@@ -967,8 +967,11 @@ static int sexp_check_type(sexp ctx, sexp a, sexp b) {
     && sexp_vector_ref(v, sexp_make_fixnum(d)) == b;
 }
 
+/* a foreign function may have run a nested sexp_apply that grew */
+/* (i.e. replaced) the stack, so the cached pointer is reloaded */
 #if SEXP_USE_GREEN_THREADS
 #define sexp_fcall_return(x, i)                             \
+  stack = sexp_stack_data(sexp_context_stack(ctx));         \
   if (sexp_exceptionp(x)) {                                 \
     if (x == sexp_global(ctx, SEXP_G_IO_BLOCK_ERROR)) {     \
       fuel = 0; ip--; goto loop;                            \
@@ -988,6 +991,7 @@ static int sexp_check_type(sexp ctx, sexp a, sexp b) {
   }
 #else
 #define sexp_fcall_return(x, i)                                 \
+  stack = sexp_stack_data(sexp_context_stack(ctx));             \
   top -= i; _ARG1 = x; ip += sizeof(sexp); sexp_check_exception();
 #endif
 
@@ -2109,8 +2113,10 @@ sexp sexp_apply (sexp ctx, sexp proc, sexp args) {
       if ((sexp_port_stream(_ARG2) ? ferror(sexp_port_stream(_ARG2)) : 1)
           && (errno == EAGAIN)) {
         if (sexp_port_stream(_ARG2)) clearerr(sexp_port_stream(_ARG2));
-        if (sexp_applicablep(sexp_global(ctx, SEXP_G_THREADS_BLOCKER)))
+        if (sexp_applicablep(sexp_global(ctx, SEXP_G_THREADS_BLOCKER))) {
           sexp_apply2(ctx, sexp_global(ctx, SEXP_G_THREADS_BLOCKER), _ARG2, SEXP_FALSE);
+          stack = sexp_stack_data(sexp_context_stack(ctx));
+        }
         else
           sexp_poll_output(ctx, _ARG2);
         fuel = 0;
@@ -2159,8 +2165,10 @@ sexp sexp_apply (sexp ctx, sexp proc, sexp args) {
       }
       /* yield if threads are enabled (otherwise busy loop) */
       /* TODO: the wait seems necessary on OS X to stop a print loop to ptys */
-      if (sexp_applicablep(sexp_global(ctx, SEXP_G_THREADS_BLOCKER)))
+      if (sexp_applicablep(sexp_global(ctx, SEXP_G_THREADS_BLOCKER))) {
         sexp_apply2(ctx, sexp_global(ctx, SEXP_G_THREADS_BLOCKER), _ARG3, SEXP_FALSE);
+        stack = sexp_stack_data(sexp_context_stack(ctx));
+      }
       else
         sexp_poll_output(ctx, _ARG3);
       fuel = 0;
@@ -2195,8 +2203,10 @@ sexp sexp_apply (sexp ctx, sexp proc, sexp args) {
                  && (errno == EAGAIN)) {
         if (sexp_port_stream(_ARG1)) clearerr(sexp_port_stream(_ARG1));
         /* TODO: block and unblock */
-        if (sexp_applicablep(sexp_global(ctx, SEXP_G_THREADS_BLOCKER)))
+        if (sexp_applicablep(sexp_global(ctx, SEXP_G_THREADS_BLOCKER))) {
           sexp_apply2(ctx, sexp_global(ctx, SEXP_G_THREADS_BLOCKER), _ARG1, SEXP_FALSE);
+          stack = sexp_stack_data(sexp_context_stack(ctx));
+        }
         else
           sexp_poll_input(ctx, _ARG1);
         fuel = 0;
@@ -2238,8 +2248,10 @@ sexp sexp_apply (sexp ctx, sexp proc, sexp args) {
       if ((sexp_port_stream(_ARG1) ? ferror(sexp_port_stream(_ARG1)) : 1)
           && (errno == EAGAIN)) {
         if (sexp_port_stream(_ARG1)) clearerr(sexp_port_stream(_ARG1));
-        if (sexp_applicablep(sexp_global(ctx, SEXP_G_THREADS_BLOCKER)))
+        if (sexp_applicablep(sexp_global(ctx, SEXP_G_THREADS_BLOCKER))) {
           sexp_apply2(ctx, sexp_global(ctx, SEXP_G_THREADS_BLOCKER), _ARG1, SEXP_FALSE);
+          stack = sexp_stack_data(sexp_context_stack(ctx));
+        }
         else
           sexp_poll_input(ctx, _ARG1);
         fuel = 0;
@@ -2273,6 +2285,7 @@ sexp sexp_apply (sexp ctx, sexp proc, sexp args) {
       } else {
         sexp_context_top(ctx) = top;
         tmp1 = sexp_apply(ctx, sexp_promise_value(_ARG1), SEXP_NULL);
+        stack = sexp_stack_data(sexp_context_stack(ctx));
         if (!sexp_promise_donep(_ARG1)) {
           sexp_promise_value(_ARG1) = tmp1;
           sexp_promise_donep(_ARG1) = 1;
